@@ -10,6 +10,7 @@ package interceptor
 import (
 	"context"
 	"fmt"
+	"strings"
 	"sync/atomic"
 	"testing"
 
@@ -105,7 +106,11 @@ func TestVerifC16(t *testing.T) {
 		if vrt.PathEventType(p) != "" || vrt.PathBlobField(p) != "" {
 			for _, c := range cases[:len(cases):len(cases)] {
 				if c.kind == "forbidden-here-only" || c.kind == "remote-name-mapped-to-forbidden" {
-					for _, pad := range []string{"skippable-event-before", "skippable-event-after"} {
+					pads := []string{"skippable-event-before", "skippable-event-after"}
+					if vrt.PathBlobField(p) != "" {
+						pads = append(pads, "json-encoded-blob", "skippable-event-before+json-encoded-blob")
+					}
+					for _, pad := range pads {
 						c2 := c
 						c2.kind, c2.pad = c.kind+"/"+pad, pad
 						cases = append(cases, c2)
@@ -172,11 +177,21 @@ func vfBuildAtPadded(root vfRoot, p vrt.Path, value string, pad string) proto.Me
 		},
 		Decorate: vrt.DecorateEvent,
 	}
-	switch pad {
+	switch strings.TrimSuffix(strings.TrimSuffix(pad, "json-encoded-blob"), "+") {
 	case "skippable-event-before":
 		o.Pad = vrt.PadSkippableEvent
 	case "skippable-event-after":
 		o.PadAfter = vrt.PadSkippableEvent
+	}
+	// "...json-encoded-blob": serialized batches on the path arrive JSON-encoded (Temporal's serializer reads proto3 and
+	// JSON alike)
+	o.BlobJSON = strings.HasSuffix(pad, "json-encoded-blob")
+	// a second batch with nothing to map (same shape, a name no mapping mentions) next to the batch on the path
+	switch pad {
+	case "unmatched-batch-before":
+		o.SiblingBlob, o.SiblingValue = "before", "some-other-namespace"
+	case "unmatched-batch-after":
+		o.SiblingBlob, o.SiblingValue = "after", "some-other-namespace"
 	}
 	return vrt.BuildForPath(root.MD, p, o)
 }
